@@ -237,6 +237,7 @@ type ConnectToken = u64;
 struct Connecting {
     token: ConnectToken,
     start: Instant,
+    conn_id: ConnectionId,
     seq_nr: SeqNr,
     requester: ConnectRequest,
 }
@@ -265,17 +266,20 @@ impl ConnectingPerAddr {
         false
     }
 
-    // TODO: use connection ID instead of sequence number. Or even both.
-    fn pop(&mut self, s: SeqNr) -> Option<Connecting> {
+    fn pop(&mut self, conn_id: ConnectionId, s: SeqNr) -> Option<Connecting> {
         for slot in self.slots.iter_mut() {
             if let Some(c) = slot {
-                if c.seq_nr == s {
+                if c.conn_id == conn_id && c.seq_nr == s {
                     self.len -= 1;
                     return slot.take();
                 }
             }
         }
         None
+    }
+
+    fn contains_conn_id(&self, conn_id: ConnectionId) -> bool {
+        self.slots.iter().flatten().any(|c| c.conn_id == conn_id)
     }
 
     fn pop_by_token(&mut self, token: ConnectToken) -> Option<Connecting> {
@@ -474,6 +478,7 @@ impl<T: Transport, E: UtpEnvironment> Dispatcher<T, E> {
                 }
                 let c = Connecting {
                     token,
+                    conn_id,
                     seq_nr: header.seq_nr,
                     requester: sender,
                     start: self.env.now(),
@@ -528,7 +533,10 @@ impl<T: Transport, E: UtpEnvironment> Dispatcher<T, E> {
             }
         };
 
-        let conn = if let Some(conn) = occ.get_mut().pop(msg.header.ack_nr) {
+        let conn = if let Some(conn) = occ
+            .get_mut()
+            .pop(msg.header.connection_id, msg.header.ack_nr)
+        {
             if occ.get_mut().is_empty() {
                 occ.remove();
             }
@@ -536,7 +544,7 @@ impl<T: Transport, E: UtpEnvironment> Dispatcher<T, E> {
         } else {
             debug!(
                 ?msg,
-                "dropping packet. we are connecting to this addr, but ack_nr doens't match"
+                "dropping packet. we are connecting to this addr, but connection_id / ack_nr don't match"
             );
             return Ok(());
         };
@@ -574,6 +582,15 @@ impl<T: Transport, E: UtpEnvironment> Dispatcher<T, E> {
         let recv_key = (syn.remote, syn.header.connection_id + 1);
         if self.streams.contains_key(&recv_key) {
             debug!(?recv_key, "SYN clashes with an existing stream, ignoring");
+            return MatchSynWithAccept::SynInvalid(accept);
+        }
+        // An outgoing connection in progress will receive on its id once the SYN-ACK arrives.
+        if self
+            .connecting
+            .get(&recv_key.0)
+            .is_some_and(|c| c.contains_conn_id(recv_key.1))
+        {
+            debug!(?recv_key, "SYN clashes with a pending connect, ignoring");
             return MatchSynWithAccept::SynInvalid(accept);
         }
 
